@@ -32,6 +32,7 @@ type c03param struct {
 	Workers int    `json:"workers,omitempty"`
 	Size    int    `json:"size,omitempty"`
 	Choices []int  `json:"choices,omitempty"` // schedule (replay)
+	Policy  int    `json:"policy"`
 	Bound   int    `json:"preemption_bound"`
 }
 
@@ -689,7 +690,7 @@ func c03reset() {
 
 func c03run(r *verifkit.Result, p c03param, bound int, mode string, maxExec int64) {
 	cfg := vsched.Config{Name: p.Scn, Preemptions: bound, DelayBounding: mode == "delay", Horizon: 4000, MaxExec: maxExec, NShards: 1,
-		Expired: r.Expired, Reset: c03reset, Full: mode == "full"}
+		Expired: r.Expired, Reset: c03reset, Full: mode == "full", Policy: p.Policy}
 	cfg.Check = func(x *vsched.Exec) string {
 		switch x.Outcome() {
 		case "deadlock":
@@ -755,8 +756,8 @@ func TestVerifC03A(t *testing.T) {
 		if err := json.Unmarshal(rc, &p); err != nil {
 			t.Fatal(err)
 		}
-		x := vsched.RunOnce(p.Choices, 4000, nil, c03reset, func(x *vsched.Exec) { x.Obs = c03body(p) })
-		y := vsched.RunOnce(p.Choices, 4000, nil, c03reset, func(x *vsched.Exec) { x.Obs = c03body(p) })
+		x := vsched.RunOncePolicy(p.Policy, p.Choices, 4000, nil, c03reset, func(x *vsched.Exec) { x.Obs = c03body(p) })
+		y := vsched.RunOncePolicy(p.Policy, p.Choices, 4000, nil, c03reset, func(x *vsched.Exec) { x.Obs = c03body(p) })
 		if x.TraceHash() != y.TraceHash() {
 			t.Fatal("replay is not deterministic")
 		}
@@ -804,6 +805,9 @@ func TestVerifC03A(t *testing.T) {
 		}
 		for _, p := range params {
 			jobs = append(jobs, job{p, "delay", 1, 20000})
+			q := p
+			q.Policy = 1
+			jobs = append(jobs, job{q, "delay", 1, 20000})
 		}
 		r.Bound("exploration", "full (unbounded, sleep sets + HB cache) for streams of <= 1 batch; delay bound 1 for every scenario parameter")
 	} else {
@@ -814,6 +818,9 @@ func TestVerifC03A(t *testing.T) {
 		}
 		for _, p := range params {
 			jobs = append(jobs, job{p, "delay", 2, 100000})
+			q := p
+			q.Policy = 1
+			jobs = append(jobs, job{q, "delay", 2, 100000})
 		}
 		for _, p := range params {
 			if len(p.Parts) <= 2 {
